@@ -2558,6 +2558,9 @@ func c15CheckLister(c *Ctx, R4 string, f *ssa.Function) {
 }
 
 var c15Mutants = []Mutant{
+	{Name: "tag-schema-nonempty-list-dropped", File: "registry/remote/repository.go",
+		Old: "\tif len(filtered) == 0 {\n\t\treturn nil\n\t}\n\treturn fn(filtered)", New: "\tif len(filtered) != 0 {\n\t\treturn nil\n\t}\n\treturn fn(filtered)",
+		Expect: "C15.R3"},
 	{Name: "referrers-page-ignores-configured-limit", File: "registry/remote/repository.go",
 		Old:    "\tlr := limitReader(resp.Body, r.MaxMetadataBytes)\n\tif err := json.NewDecoder(lr).Decode(&index); err != nil {",
 		New:    "\tlr := limitReader(resp.Body, 0)\n\tif err := json.NewDecoder(lr).Decode(&index); err != nil {",
